@@ -207,6 +207,8 @@ class StackNode:
         self.rx_state = None
         self.rx_busy = False
         self.reentrant_depth = 0
+        self.send_time = 0           # seconds (or (lo, hi)) the send backend blocks its caller after the frame is out
+        self.slow_sends = 0
         self.isolated = False
         self.isolated_sent = []
         self.send_calls = 0
@@ -278,6 +280,15 @@ class StackNode:
         msg = can.Message(is_extended_id=extended_id, arbitration_id=can_id, data=data,
                           is_fd=fd_format, bitrate_switch=fd_format)
         self.bus.transmit(self, msg.arbitration_id, bytes(msg.data), fd=fd_format, ext=bool(extended_id))
+        if self.send_time:
+            # a slow interface: the send call returns only some time after the frame went out (the calling thread is blocked that long;
+            # only controlled threads can be -- the driver plays threads that are not modelled as blocking)
+            sim = self.bus.sim
+            st = sim.states.get(threading.current_thread())
+            if st is not None and sim.current is st and not sim.reentrant_depth:
+                d = self.send_time if not isinstance(self.send_time, tuple) else self.bus.rng.uniform(*self.send_time)
+                self.slow_sends += 1
+                engine._vsleep(d)
 
     def can_reenter(self):
         """may a frame be handled re-entrantly (inside the sender's send call) right now?  Only if this stack's receive thread is not in the
